@@ -60,6 +60,14 @@ type ScriptPlan struct {
 	GreaseNamesBadKey bool `json:"grease_names_bad_key,omitempty"`
 	// AlertWriteFails (refused hellos): writes to the client fail.
 	AlertWriteFails bool `json:"alert_write_fails,omitempty"`
+	// SNIList 1..3 (hellos without ECH / GREASE): the server_name list holds an
+	// entry of a name type other than host_name (RFC 6066 allows the list to
+	// grow new types): 1 = only such an entry, 2 = it comes before the
+	// host_name entry, 3 = after it. Its opaque body is spelt so that a parser
+	// that loses step inside it reads a host name there. A front may refuse
+	// such a hello; if it lets it through, what it reports must be what a TLS
+	// stack reads from the same bytes.
+	SNIList int `json:"sni_list,omitempty"`
 	// SharedOption: the process builds its option list once and uses it for all
 	// its connections; before the connection under test it has served a valid
 	// hello (same keys, same target, the config's first suite) with it.
@@ -215,6 +223,31 @@ func buildScript(seed uint64, p *ScriptPlan) (*built, error) {
 			}
 			pos := r.IntN(len(h.Exts) + 1)
 			h.Exts = slices.Insert(h.Exts, pos, echbox.Ext{Type: echbox.ExtECH, Data: e.Bytes()})
+		}
+		if p.SNIList > 0 {
+			if i := h.Find(echbox.ExtSNI); i >= 0 {
+				host := []byte(p.InnerSNI)
+				real := append([]byte{0, byte(len(host) >> 8), byte(len(host))}, host...)
+				evil := []byte("evil.example.org")
+				// (opaque length 0x0100: a parser that skips only the type octet
+				// meets 0x01 - another unknown type -, then 0x00 - host_name -, then
+				// this length and name, then unknown types up to the end)
+				body := append([]byte{byte(len(evil) >> 8), byte(len(evil))}, evil...)
+				for len(body) < 256 {
+					body = append(body, 1)
+				}
+				odd := append([]byte{1, 1, 0}, body...)
+				var list []byte
+				switch p.SNIList {
+				case 1:
+					list = odd
+				case 2:
+					list = append(append([]byte(nil), odd...), real...)
+				default:
+					list = append(append([]byte(nil), real...), 1, 0, 3, 'x', 'y', 'z')
+				}
+				h.Exts[i].Data = append([]byte{byte(len(list) >> 8), byte(len(list))}, list...)
+			}
 		}
 		if p.LegacyVer != 0 {
 			h.Version = p.LegacyVer
@@ -1086,8 +1119,15 @@ func executeScript(t *testing.T, prop string, seed uint64, p *ScriptPlan) *core.
 				res.Probe("substitution_aborted")
 				break
 			}
+			if p.SNIList > 0 {
+				res.Probe("odd_sni_list_refused")
+				break
+			}
 			res.Fail(prop, "passthrough", "NewConn: "+normErr(o.err), "%s: %v", mk, o.err)
 			break
+		}
+		if p.SNIList > 0 {
+			res.Probe("odd_sni_list_let_through")
 		}
 		if o.accepted {
 			res.Fail(prop, "accepted-unauthentic", mk, "Conn.ECHAccepted is true")
